@@ -34,14 +34,47 @@ type vDB struct {
 func (l *vDB) GetRange() (uint64, uint64) {
 	return l.marker + 1, l.marker + uint64(len(l.ents))
 }
-func (l *vDB) SetRange(index uint64, length uint64)  {}
-func (l *vDB) NodeState() (pb.State, pb.Membership)  { return l.state, l.members }
-func (l *vDB) SetState(ps pb.State)                  { l.state = ps }
-func (l *vDB) CreateSnapshot(ss pb.Snapshot) error   { l.ss = ss; return nil }
-func (l *vDB) ApplySnapshot(ss pb.Snapshot) error    { l.ss = ss; return nil }
-func (l *vDB) Snapshot() pb.Snapshot                 { return l.ss }
-func (l *vDB) Compact(index uint64) error            { return nil }
-func (l *vDB) Append(entries []pb.Entry) error       { return nil }
+func (l *vDB) SetRange(index uint64, length uint64) {}
+func (l *vDB) NodeState() (pb.State, pb.Membership) { return l.state, l.members }
+func (l *vDB) SetState(ps pb.State)                 { l.state = ps }
+func (l *vDB) CreateSnapshot(ss pb.Snapshot) error  { l.ss = ss; return nil }
+func (l *vDB) Snapshot() pb.Snapshot                { return l.ss }
+
+// ApplySnapshot, Append and Compact follow logdb.LogReader: the node calls them
+// after the corresponding record was saved and before Peer.Commit.
+func (l *vDB) ApplySnapshot(ss pb.Snapshot) error {
+	l.ss = ss
+	l.marker, l.markerTerm = ss.Index, ss.Term
+	l.ents = nil
+	return nil
+}
+func (l *vDB) Append(entries []pb.Entry) error {
+	if len(entries) == 0 {
+		return nil
+	}
+	first := entries[0].Index
+	last := l.marker + uint64(len(l.ents))
+	if first > last+1 {
+		panic("vDB: gap in persisted log")
+	}
+	if first <= l.marker {
+		panic("vDB: append below marker")
+	}
+	l.ents = append(append([]pb.Entry(nil), l.ents[:first-l.marker-1]...), entries...)
+	return nil
+}
+func (l *vDB) Compact(index uint64) error {
+	if index <= l.marker {
+		return ErrCompacted
+	}
+	if index > l.marker+uint64(len(l.ents)) {
+		return ErrUnavailable
+	}
+	t := l.ents[index-l.marker-1].Term
+	l.ents = append([]pb.Entry(nil), l.ents[index-l.marker:]...)
+	l.marker, l.markerTerm = index, t
+	return nil
+}
 func (l *vDB) Term(index uint64) (uint64, error) {
 	if index == l.marker {
 		return l.markerTerm, nil
@@ -154,11 +187,14 @@ func (s *vLogSnap) term(i uint64) uint64 {
 // log builder
 
 type vLogOpts struct {
-	maxPers int  // persisted entries below the window
-	maxWin  int  // in-memory window
-	ss      bool // allow a pending (not yet saved) snapshot
-	types   bool // symbolic entry types (application / config change)
-	cmd     bool // entries carry a one-byte payload (witness stripping)
+	maxPers     int  // persisted entries below the window
+	maxWin      int  // in-memory window
+	ss          bool // allow a pending (not yet saved) snapshot
+	types       bool // symbolic entry types (application / config change)
+	cmd         bool // entries carry a one-byte payload (witness stripping)
+	shadow      bool // the store may still hold (stale) entries at or above the window start
+	noAppliedTo bool // do not vary the applied-index shortcut
+	allSaved    bool // the whole window has been persisted (savedTo = last)
 }
 
 func vEntry(index, term uint64, o vLogOpts) pb.Entry {
@@ -200,6 +236,7 @@ func vLog(o vLogOpts) *entryLog {
 	l := &entryLog{logdb: db, inmem: inMemory{rl: rl}}
 	base := pm
 	mi := pm + uint64(np) + 1
+
 	if o.ss && vBool("ssPending") {
 		// restore() happened and the snapshot has not been saved yet; whatever the
 		// store holds is unreachable behind it.
@@ -229,16 +266,33 @@ func vLog(o vLogOpts) *entryLog {
 	}
 	l.inmem.entries = ents
 	last := mi + uint64(nm) - 1
-	l.inmem.savedTo = vU64("savedTo")
-	vAssume(l.inmem.savedTo+1 >= mi)
-	vAssume(l.inmem.savedTo <= last)
+	// savedTo: a prefix of the window has been persisted, and what was persisted
+	// is in the store (the node appends to the LogReader before Peer.Commit).
+	// While a snapshot is pending nothing after it has been saved yet.
+	nsaved := 0
+	if l.inmem.snapshot == nil {
+		nsaved = nm
+		if !o.allSaved {
+			nsaved = vChoose("nsaved", nm+1)
+		}
+		keep := np // persisted entries below the window
+		db.ents = append(append([]pb.Entry(nil), db.ents[:keep]...), ents[:nsaved]...)
+		if o.shadow && nsaved < nm && vBool("staleTail") {
+			// a stale entry left behind by a conflict truncation that was not saved yet
+			t := vU64("staleterm")
+			vAssume(t >= 1)
+			vAssume(t < vMaxIdx)
+			db.ents = append(db.ents, vEntry(mi+uint64(nsaved), t, o))
+		}
+	}
+	l.inmem.savedTo = mi - 1 + uint64(nsaved)
 	l.committed = vU64("committed")
 	vAssume(l.committed >= base)
 	vAssume(l.committed <= last)
 	l.processed = vU64("processed")
 	vAssume(l.processed >= base)
 	vAssume(l.processed <= l.committed)
-	if l.inmem.snapshot == nil && vBool("hasAppliedTo") {
+	if l.inmem.snapshot == nil && !o.noAppliedTo && vBool("hasAppliedTo") {
 		// the applied-index shortcut left behind by appliedLogTo
 		ai := vU64("appliedTo")
 		vAssume(ai >= 1)
@@ -324,17 +378,18 @@ func vIn(id uint64, l []uint64) bool {
 // raft builder
 
 type vRaftOpts struct {
-	shapes   []int
-	log      vLogOpts
-	roles    []State // allowed roles for a voting self; nil = all four
-	maxRead  int     // pending ReadIndex contexts on a leader
-	votes    bool    // symbolic vote tally on candidates
-	removed  bool    // also allow "self is not a member any more"
-	flags    bool    // symbolic checkQuorum / preVote (else both false)
-	preVote  bool    // force preVote on
-	remotes  bool    // symbolic flow-control state of ONE remote (the first non-self member) on a leader; the others are in Replicate state and active
-	transfer bool    // symbolic leader transfer target on a leader
-	allSelves bool   // every member id as the local replica even in the quick tier
+	shapes    []int
+	log       vLogOpts
+	roles     []State     // allowed roles for a voting self; nil = all four
+	maxRead   int         // pending ReadIndex contexts on a leader
+	votes     bool        // symbolic vote tally on candidates
+	removed   bool        // also allow "self is not a member any more"
+	flags     bool        // symbolic checkQuorum / preVote (else both false)
+	preVote   bool        // force preVote on
+	remotes   bool        // symbolic flow-control state of ONE remote (the first non-self member) on a leader; the others are in Replicate state and active
+	transfer  bool        // symbolic leader transfer target on a leader
+	allSelves bool        // every member id as the local replica even in the quick tier
+	pairs     [][2]uint64 // explicit (shape, local replica id) choices; overrides shapes
 }
 
 type vCluster struct {
@@ -376,9 +431,18 @@ func vRemote(last uint64, self bool, focus bool, o vRaftOpts) *remote {
 // vRaft builds an arbitrary raft state satisfying RaftInv for one of the
 // allowed cluster shapes.
 func vRaft(o vRaftOpts) (*raft, vCluster) {
-	sh := vShapes[o.shapes[vChoose("shape", len(o.shapes))]]
-	ids := sh.all()
-	if vTier() == 0 && !o.allSelves {
+	var sh vShape
+	var ids []uint64
+	if len(o.pairs) > 0 {
+		pr := o.pairs[vChoose("shapeself", len(o.pairs))]
+		sh = vShapes[pr[0]]
+		ids = []uint64{pr[1]}
+		o.allSelves = true
+	} else {
+		sh = vShapes[o.shapes[vChoose("shape", len(o.shapes))]]
+		ids = sh.all()
+	}
+	if vTier() == 0 && !o.allSelves && len(o.pairs) == 0 {
 		// quick tier: one representative per kind (replica ids of the same kind
 		// are interchangeable: the code never orders or hashes replica ids)
 		ids = []uint64{sh.voters[0]}
